@@ -13,15 +13,16 @@ func init() {
 	register(&Prop{
 		ID:        "C16",
 		Level:     "other",
-		Technique: "effect whitelist over every decoder of pkg/kmsg (all input access goes through kbin.Reader), allocation-source rule (every make() size in a decoder derives from a length reader that is bounded by the remaining input, after the reader's failure test), loop/index idiom rule for decoded arrays, guard rule on the bounded length readers of both kbin copies, dominating-guard bounds proof of the kbin reader copy inside pkg/kmsg, idiom rules (grow-or-truncate to the decoded length, counted loop below that length, range loop) for every index/slice of the hand-written decoders, field-width agreement of the hand-written Record codec",
+		Technique: "effect whitelist over every decoder of pkg/kmsg (all input access goes through kbin.Reader), allocation-source rule (every make() size in a decoder derives from a length reader that is bounded by the remaining input, after the reader's failure test), loop/index idiom rule for decoded arrays, guard rule on the bounded length readers of both kbin copies, dominating-guard bounds proof of the kbin reader copy inside pkg/kmsg, idiom rules (grow-or-truncate to the decoded length, counted loop below that length, range loop) for every index/slice of the hand-written decoders, field-width agreement of the hand-written Record codec, definite-assignment (must-pass-through on the CFG) of zero-declared interface/pointer/func locals before each dereference in pkg/kgo/source.go",
 		Explanation: "(1) no decoder of pkg/kmsg (every readFrom, the ReadFrom/UnsafeReadFrom wrappers, ReadTags/SkipTags/internalReadTags) indexes or slices its input: src is only wrapped into kbin.Reader{Src: src} and every byte is obtained through a kbin.Reader method (whose bounds C17 proves); " +
 			"(2) every make() in a decoder (readFrom, the wrappers and the tag readers) has a size that derives only from kbin.Reader.ArrayLen / CompactArrayLen / VarintArrayLen (possibly clamped at zero, possibly minus an existing capacity); in generated decoders the allocation is under `l > 0` and after the `if !b.Ok() { return b.Complete() }` bail-out that follows the length read; " +
 			"(3) those three readers return a non-zero length r only when len(b.Src) >= r and otherwise poison the reader (bad = true, Src = nil), in pkg/kbin and in pkg/kmsg/internal/kbin; so each allocation is at most (remaining input) elements, and after a failed read no further allocation happens; " +
 			"(3b) every index/slice/binary.BigEndian access of pkg/kmsg/internal/kbin (the reader the decoders use) is proven in bounds from dominating guards; " +
 			"(4) every index into a decoded array is `a[i]` inside `for i := 0; i < l; i++` directly after `a = a[:0]; if l > 0 { a = append(a, make(T, l)...) }` with the same a, l, i (or a range loop over the array itself); " +
 			"(5) every index/slice in the hand-written decoders of pkg/kmsg (api.go, record.go) is one of: the idiom of (4); `S[:cap(S)]` / `S[:N]` inside `need := N - cap(S); if need > 0 { S = append(S[:cap(S)], make(T, need)...) } else { S = S[:N] }` with N clamped at zero (afterwards len(S) == N); `S[i]` in a loop `i < N` following that idiom; `S[i]` in `for i := range S`; " +
-			"(6) Record: the field written as the timestamp delta varlong is the full-width field the reader stores the varlong into (the narrow int32 copy is only the zero-fallback), so re-encoding a decoded record does not truncate.",
-		NotDecided:  "CPU time on hostile tag counts (SkipTags/ReadTags loop up to 2^32 times on an exhausted reader, allocating nothing); the constant of the memory bound (element sizes); re-encode/decode equality beyond writer==reader schema agreement, which C15 validates for generated types; kgo's own batch decoders (C06).",
+			"(6) Record: the field written as the timestamp delta varlong is the full-width field the reader stores the varlong into (the narrow int32 copy is only the zero-fallback), so re-encoding a decoded record does not truncate; " +
+			"(7) in every function of pkg/kgo/source.go (the fetch / legacy message-set / record-batch decoding file) and in the hand-written kmsg decoders, a local declared without a value whose type is an interface, pointer or func (e.g. `var msg readerFrom` chosen by the switch on the magic byte) is assigned on every control-flow path from its declaration to each dereferencing use (method call/value through the interface, field access or * through the pointer, call of the func); edges that need the variable to be non-nil are not followed; uses inside function literals are decided inside the literal or at the literal's calls/creation. A path without assignment (such as a bare `break` in a switch arm that only leaves the switch) is a nil-dereference panic on the input that drives it.",
+		NotDecided:  "CPU time on hostile tag counts (SkipTags/ReadTags loop up to 2^32 times on an exhausted reader, allocating nothing); the constant of the memory bound (element sizes); re-encode/decode equality beyond writer==reader schema agreement, which C15 validates for generated types; kgo's own batch decoders beyond clause 7 (C06); clause 7 is path-insensitive apart from nil tests of the variable itself (correlated conditions would be reported, none exist on the pinned tree), treats `&x` and any assignment of a non-nil-literal value as making x non-nil, and does not cover locals initialised to a possibly-nil value, struct fields or results of map lookups / type assertions.",
 		Assumptions: []string{"kbin.Reader methods never read out of bounds and Span(n) fails without allocating when n exceeds the remaining input (C17 clause 5)"},
 		Run:         runC16,
 	})
@@ -98,6 +99,7 @@ func runC16(c *Ctx) {
 	// here for the round-trip clause): Tags.Set/Len/Each/AppendEach and the tag readers
 	c15Tags(c, m)
 	c16arrayConversions(c, m, root)
+	c16round4(c, m, root)
 }
 
 // c16arrayConversions: a slice-to-array (or array pointer) conversion panics
